@@ -206,7 +206,8 @@ func TestC14Regexps(t *testing.T) {
 	rapidCheck(t, col, func(rt *rapid.T) {
 		var p string
 		if rapid.Bool().Draw(rt, "validpat") {
-			p = rapid.SampledFrom([]string{"a", "^a+$", "b|c", "[0-9]+", `\d+`, `a\.b`, "x/y", "(ab)+", "狐", `\s*é`, "a b", `^\w+@\w+$`, "(?:a)b", "(?i)q", "(?i", "(?", "(?im", "(?:a", "(?P<n>a)", "(?:é)", "(?:狐|x)b", "(?i)é"}).Draw(rt, "pat")
+			p = rapid.SampledFrom([]string{"a", "^a+$", "b|c", "[0-9]+", `\d+`, `a\.b`, "x/y", "(ab)+", "狐", `\s*é`, "a b", `^\w+@\w+$`, "(?:a)b", "(?i)q", "(?i", "(?", "(?im", "(?:a", "(?P<n>a)", "(?:é)", "(?:狐|x)b", "(?i)é",
+				"a{2}", "a{1,2}b", "b{0}a", "a{2,}", "é{2}", "a{,2}", "{", "a{", "}{", "a{x}", "12{1}", "a=b", "=a", "a-b", "a,b", "a:b", "a;b", "#a", "a&b", "a%d", "a~", "<a>", "a'b", "a\"b", "a!"}).Draw(rt, "pat")
 		} else {
 			p = drawText(rt, "pattext", 8)
 			p = strings.ReplaceAll(p, "\x00", "")
@@ -257,7 +258,7 @@ func TestC14Regexps(t *testing.T) {
 			violation(rt, "C14", c, "%v", err)
 		}
 		// matching agrees with the host's regexp library (model)
-		subj := rapid.SampledFrom([]string{"a", "aaa", "b", "A", "x/y", "12", "a.b", "ab ab", "狐犬", "é", "user@host", "", "Q"}).Draw(rt, "subject")
+		subj := rapid.SampledFrom([]string{"a", "aaa", "b", "A", "x/y", "12", "a.b", "ab ab", "狐犬", "é", "user@host", "", "Q", "aa", "a{2}", "ab", "aab", "éé", "a{", "{", "a=b", "a-b", "a,b", "#a", "a%d", "11", "a{1,2}b"}).Draw(rt, "subject")
 		m := lang.NewMachine()
 		prog := &lang.Program{Stmts: []lang.Stmt{lang.Return{X: lang.Binary{Op: "~=", L: lang.Lit{V: lang.Str(subj)}, R: lang.Lit{V: lang.Regexp(full)}}}}}
 		mc := &Case{Prop: "C14", Kind: "regexp-match", Script: "return " + lang.QuoteString(subj) + " ~= " + lit + ";", Exp: expectFromModel(m, prog)}
